@@ -384,8 +384,9 @@ Save(r, ok) ==
      ELSE /\ ok = TRUE /\ UNCHANGED store
   /\ elock' = [elock EXCEPT ![e] = Free]
   /\ pc' = [pc EXCEPT ![r] = "end"]
+  /\ obs' = G(IF pc[r] \in {"cab.saving", "hfp.saving"} /\ ok THEN O!OPersisted(obs, E.key, IF E.status = "hit" THEN E.resp ELSE 0, TRUE) ELSE obs)
   /\ UNCHANGED <<now, ticks, lru, ent, est, nextEnt, slock, rkey, rdisp, rmeth, rent, rst, rresp, rout, rttl, rsend, rver,
-                 ppc, pkey, ptodo, pcur, pall, starts, nver, purges, kills, drops, obs>>
+                 ppc, pkey, ptodo, pcur, pall, starts, nver, purges, kills, drops>>
 
 (* the middleware returns *)
 End(r) ==
@@ -537,6 +538,7 @@ I_SingleFlight      == O!P_SingleFlight(obs)
 I_BurstCostsOne     == O!P_BurstCostsOne(obs)
 I_NoEarlyRelease    == O!P_NoEarlyRelease(obs)
 I_NoUntimelyPublish == O!P_NoUntimelyPublish(obs)
+I_StoreMatchesKey   == O!P_StoreMatchesKey(obs)
 I_HitServed         == O!P_HitServed(obs)
 I_LabelTruth        == O!P_LabelTruth(obs)
 I_OnlyStoredIsShared == O!P_OnlyStoredIsShared(obs)
